@@ -19,11 +19,15 @@ RULE = ("forward: random well-formed graphs written by write_arrays (zarr 2/3), 
         "serialiser, hand-written metadata JSON) in every conformant variant -- chunk length {1,2,whole}, compressor on/off, missing "
         "absent / all-false when nothing is missing, empty vs absent props group, optional metadata fields omitted, foreign attributes and "
         "members, creation order shuffled, big-endian ids (zarr 2), zarr 2/3 -- read by geff.read_to_memory; non-trivial = at least one "
-        "property; distinct by structural input and variant")
+        "property; distinct by structural input and variant; key level: for every store the raw keys (MemoryStore._store_dict) are read by the Coq "
+        "abstraction function and must equal the API dump and spec-decode to the intended graph; 9 wrong-key layouts x zarr 2/3 as negative controls")
 EXHAUSTIVE_BLOCKS = ["converse: one fixed graph (fixed + masked + var-length property) x all 2*3*2*2*2*2*2 layout variants (incl. var-length sections stored in reverse order)"]
 ASSUMPTIONS = ["zarr decodes chunks/compressors correctly (variants are exercised on the implementation side; the abstract dump is codec-free)",
                "an absent missing array and an all-false one denote the same graph (the equivalence used for C02, see DESIGN 7b)",
-               "dtype equality is by numpy name, not byte order"]
+               "dtype equality is by numpy name, not byte order",
+               "key level: the raw keys of every store (documents parsed, chunk bytes decoded by the harness with numcodecs + numpy.frombuffer, not by "
+               "zarr's codec pipeline) are abstracted inside Coq (KeyStore.v) and compared with the API dump; chunk encoding itself, sharding and the "
+               "transpose codec are outside the model; the geff document is compared up to verdict + skeleton (KeyTie.v)"]
 
 
 def variants_all():
